@@ -12,12 +12,14 @@ type SimpleItem struct {
 	Size float64
 	Text string // printable ASCII (escaped as needed)
 	Bold bool   // uses Helvetica-Bold (font /F2) instead of Helvetica (/F1)
+	Flip bool   // text matrix "1 0 0 -1 x y" (upright text under a Y-flipping CTM)
 }
 
 // SimplePage is a page of positioned strings.
 type SimplePage struct {
 	W, H  float64
 	Items []SimpleItem
+	CTM   *[6]float64 // optional "a b c d e f cm" emitted once before the items
 }
 
 // SimplePDF writes a plain single-revision PDF (classic xref, direct lengths,
@@ -37,6 +39,10 @@ func SimplePDF(pages []SimplePage) []byte {
 		pn, cn := next(), next()
 		pk, ck := fmt.Sprintf("p%d", i), fmt.Sprintf("c%d", i)
 		var sb strings.Builder
+		if p.CTM != nil {
+			m := p.CTM
+			fmt.Fprintf(&sb, "%s %s %s %s %s %s cm\n", fnum(m[0]), fnum(m[1]), fnum(m[2]), fnum(m[3]), fnum(m[4]), fnum(m[5]))
+		}
 		for _, it := range p.Items {
 			font := "F1"
 			if it.Bold {
@@ -44,7 +50,11 @@ func SimplePDF(pages []SimplePage) []byte {
 			}
 			e := &Enc{NoFields: true}
 			e.str(Str{B: []byte(it.Text)})
-			fmt.Fprintf(&sb, "BT /%s %s Tf 1 0 0 1 %s %s Tm %s Tj ET\n", font, fnum(it.Size), fnum(it.X), fnum(it.Y), e.Buf.String())
+			d := "1"
+			if it.Flip {
+				d = "-1"
+			}
+			fmt.Fprintf(&sb, "BT /%s %s Tf 1 0 0 %s %s %s Tm %s Tj ET\n", font, fnum(it.Size), d, fnum(it.X), fnum(it.Y), e.Buf.String())
 		}
 		objs = append(objs,
 			RevObj{Key: pk, Num: pn, Obj: Dict{{"Type", Name("Page")}, {"Parent", Ref{"root"}}, {"MediaBox", Arr{0, 0, p.W, p.H}},
